@@ -16,6 +16,11 @@ from checks import c05
 P = [43, 6, 1, 4, 1, 206, 15]
 NAMES = {(1, 2): bytes(P + [4]), (1, 3): bytes(P + [5]), (1, 3, 1): bytes(P + [5, 1]), (1, 3, 2): bytes(P + [5, 2]), (1, 4): bytes(P + [6])}
 BASE_TEXT = "1.3.6.1.4.1.9999.5"
+# a second concrete universe with multi-octet sub-identifiers whose encodings share lead octets
+# (128 = 81 00, 16384 = 81 80 00): byte order and arc order differ there
+NAMES2 = {(1, 2): bytes(P + [4, 0x81, 0x00]), (1, 3): bytes(P + [5]), (1, 3, 1): bytes(P + [5, 0x81, 0x00, 10, 0, 0, 5]),
+          (1, 3, 2): bytes(P + [5, 0x81, 0x80, 0x00, 10, 0, 0, 4]), (1, 4): bytes(P + [6])}
+UNIVERSES = [NAMES, NAMES2]
 
 
 def export(bulk, maxvb):
@@ -57,31 +62,31 @@ def random_script(rng):
     return out
 
 
-async def run_async(rec, cfg, items):
+async def run_async(rec, cfg, items, uni=0):
     runs = []
-    for op, script in items:
+    for k, (op, script) in enumerate(items):
         a = rec.n
         agent = ag.Agent(engine=cfg.engine or None) if cfg.engine else ag.Agent()
         state = {"resp": lambda req: []}
         api = await apidrv.AsyncApi.create(rec, cfg, lambda req: state["resp"](req), timeout=0.3)
-        state["resp"] = walks.scripted_responder(agent, api.cfgref, script, NAMES)
+        state["resp"] = walks.scripted_responder(agent, api.cfgref, script, UNIVERSES[(k + uni) % 2])
         await walks.walk_async(api, op, BASE_TEXT, 3 if op == "getbulk" else None, limit=40)
         api.close()
-        runs.append((a, rec.n, dict(kind="async", ver=cfg.ver, op=op, script=script)))
+        runs.append((a, rec.n, dict(kind="async", ver=cfg.ver, op=op, script=script, universe=(k + uni) % 2)))
     return runs
 
 
-def run_sync(rec, cfg, items):
+def run_sync(rec, cfg, items, uni=0):
     runs = []
-    for op, script in items:
+    for k, (op, script) in enumerate(items):
         a = rec.n
         agent = ag.Agent(engine=cfg.engine or None) if cfg.engine else ag.Agent()
         state = {"resp": lambda req: []}
         api = apidrv.SyncApi(rec, cfg, lambda req: state["resp"](req), timeout=0.3)
-        state["resp"] = walks.scripted_responder(agent, api.cfgref, script, NAMES)
+        state["resp"] = walks.scripted_responder(agent, api.cfgref, script, UNIVERSES[(k + uni) % 2])
         walks.walk_sync(api, op, BASE_TEXT, 3 if op == "getbulk" else None, limit=40)
         api.close()
-        runs.append((a, rec.n, dict(kind="sync", ver=cfg.ver, op=op, script=script)))
+        runs.append((a, rec.n, dict(kind="sync", ver=cfg.ver, op=op, script=script, universe=(k + uni) % 2)))
     return runs
 
 
@@ -126,7 +131,8 @@ def run(tier):
     std = scripts.std_cfgs()
     rec = trace.Recorder("c06")
     runs = []
-    runs += asyncio.run(run_async(rec, std["v2c"], items))
+    runs += asyncio.run(run_async(rec, std["v2c"], items, 0))
+    runs += asyncio.run(run_async(rec, std["v2c"], items if thorough else items[::2], 1))      # the other universe
     pick = lambda n, off: [x for i, x in enumerate(items) if thorough or (i + off + SEED) % n == 0]
     runs += run_sync(rec, std["v2c"], pick(3, 0))
     runs += run_sync(rec, std["v1"], [x for x in pick(6, 1) if x[0] == "getnext"])
@@ -160,9 +166,9 @@ def replay(path):
     cfgname = {"v1": "v1", "v2c": "v2c"}.get(info["ver"], "v3-md5-des")
     rec = trace.Recorder("c06-replay")
     if info["kind"] == "async":
-        asyncio.run(run_async(rec, std[cfgname], [(info["op"], info["script"])]))
+        asyncio.run(run_async(rec, std[cfgname], [(info["op"], info["script"])], info.get("universe", 0)))
     else:
-        run_sync(rec, std[cfgname], [(info["op"], info["script"])])
+        run_sync(rec, std[cfgname], [(info["op"], info["script"])], info.get("universe", 0))
     v = trace.validate("TraceSession.tla", "TraceSession.cfg", rec.close())
     if v["accepted"] and not v["fails"]:
         print("replay: accepted")
